@@ -38,6 +38,9 @@ enum Db {
     D3,
     /// ten binaries, two of them with flags other than ONLINE
     D4,
+    /// sixty analogs and six binaries: read analogs first, so that the packed binaries land
+    /// in a later fragment (at 249) and their flags can change while the series is under way
+    D5,
 }
 
 fn static_group(k: Kind) -> u8 {
@@ -146,6 +149,14 @@ fn build(db_kind: Db, sim: &mut OSim) -> Mirror {
                 add(sim, &mut m, Kind::Binary, i, None);
             }
         }
+        Db::D5 => {
+            for i in 0..60 {
+                add(sim, &mut m, Kind::Analog, i, None);
+            }
+            for i in 0..6 {
+                add(sim, &mut m, Kind::Binary, i, None);
+            }
+        }
     }
     // initial values (newly added points carry the RESTART flag until updated)
     let keys: Vec<(Kind, u32)> = m.keys().cloned().collect();
@@ -155,7 +166,7 @@ fn build(db_kind: Db, sim: &mut OSim) -> Mirror {
             Kind::DoubleBit => (1 + n % 2) as f64,
             _ => (10 + n * 3) as f64,
         };
-        let flags = if db_kind == Db::D4 && (*i == 3 || *i == 4) { 0x05 } else { 0x01 };
+        let flags = if (db_kind == Db::D4 && (*i == 3 || *i == 4)) || (db_kind == Db::D5 && *k == Kind::Binary && *i == 3) { 0x05 } else { 0x01 };
         set_point(sim, &mut m, *k, *i as u16, num, flags, NO_EVENT());
     }
     sim.pump();
@@ -225,11 +236,15 @@ impl Hdr {
 }
 
 fn reads(db: Db) -> Vec<Vec<Hdr>> {
+    if db == Db::D5 {
+        return vec![vec![Hdr::All(30, 0), Hdr::All(1, 0)], vec![Hdr::All(30, 0), Hdr::All(1, 1)], vec![Hdr::Class0]];
+    }
     let (g, n, alt): (u8, u16, u8) = match db {
         Db::D1 => (1, 5, 2),
         Db::D2 => (30, 2, 2),
         Db::D3 => (30, 100, 2),
         Db::D4 => (1, 10, 2),
+        Db::D5 => unreachable!(),
     };
     let mut v = vec![
         vec![Hdr::Class0],
@@ -507,13 +522,18 @@ impl Scenario for C11 {
                         (Db::D3, _) => (Kind::Analog, 0),
                         (Db::D4, Ev::UpdIn) => (Kind::Binary, 2),
                         (Db::D4, _) => (Kind::Binary, 4),
+                        (Db::D5, Ev::UpdIn) => (Kind::Binary, 2),
+                        (Db::D5, _) => (Kind::Binary, 3),
                     };
                     let cur = mirror[&(k, idx as u32)].clone();
                     let num = match k {
-                        Kind::Binary => 1.0 - cur.num,
+                        Kind::Binary if self.db != Db::D5 => 1.0 - cur.num,
+                        Kind::Binary => cur.num,
                         _ => cur.num + upd_n as f64,
                     };
-                    set_point(&mut sim, &mut mirror, k, idx, num, cur.flags, UpdateOptions::detect_event());
+                    // D5: the update changes the flags (ONLINE <-> ONLINE|COMM_LOST), not the value
+                    let flags = if self.db == Db::D5 { cur.flags ^ 0x04 } else { cur.flags };
+                    set_point(&mut sim, &mut mirror, k, idx, num, flags, UpdateOptions::detect_event());
                     sim.pump();
                 }
             }
@@ -680,11 +700,11 @@ fn scenarios(tier: &str) -> Vec<C11> {
         ]);
         C11 { name: format!("{db:?}-tx{tx}-d{depth}"), db, tx, depth, alphabet }
     };
-    let mut v = vec![mk(Db::D3, 249, 4), mk(Db::D2, 249, 3), mk(Db::D4, 249, 3), mk(Db::D1, 2048, 3), mk(Db::D2, 2048, 3)];
+    let mut v = vec![mk(Db::D3, 249, 4), mk(Db::D2, 249, 3), mk(Db::D4, 249, 3), mk(Db::D1, 2048, 3), mk(Db::D2, 2048, 3), mk(Db::D5, 249, 4)];
     if tier == "thorough" {
-        for db in [Db::D1, Db::D2, Db::D3, Db::D4] {
+        for db in [Db::D1, Db::D2, Db::D3, Db::D4, Db::D5] {
             for tx in [249usize, 300, 2048] {
-                v.push(mk(db, tx, if db == Db::D3 { 5 } else { 4 }));
+                v.push(mk(db, tx, if db == Db::D3 || db == Db::D5 { 5 } else { 4 }));
             }
         }
     }
@@ -702,7 +722,7 @@ pub fn check(tier: &str) -> i32 {
     }
     c.finish(
         "model_checking",
-        "every event history over the listed alphabet (8-10 READ requests per database: class 0, class 1230, all objects, 8/16-bit ranges inside / overlapping / outside the index set, a specific variation, several headers; right / wrong / late solicited confirm, confirm timeout, another request, reconnect, update of a selected and of another point) up to the listed depth on four databases and three transmit buffer sizes; a mirrored database is snapshotted when each READ is delivered and the concatenated series is compared with it; non-trivial = a series completed (and spanned several fragments for the small buffers); distinct = distinct observation trace",
+        "every event history over the listed alphabet (8-10 READ requests per database: class 0, class 1230, all objects, 8/16-bit ranges inside / overlapping / outside the index set, a specific variation, several headers; right / wrong / late solicited confirm, confirm timeout, another request, reconnect, update of a selected and of another point) up to the listed depth on five databases (packed binaries; eight types with sparse indices; 100 analogs; binaries with mixed flags; 60 analogs followed by binaries whose *flags* are updated while the series is under way) and three transmit buffer sizes; a mirrored database is snapshotted when each READ is delivered and the concatenated series is compared with it; non-trivial = a series completed (and spanned several fragments for the small buffers); distinct = distinct observation trace",
         &[
             "updates are placed at quiescent points between fragments (H6 lock-point placements are not built)",
             "values are small integers representable in every variation used (variation-specific carrying is C10's subject)",
